@@ -21,5 +21,13 @@ static inline void xv_xcmcore_havoc(void)
     xv_closed_sock = nondet_sockp(); xv_cleaned_sock = nondet_sockp(); xv_destroyed_sock = nondet_sockp();
     xv_destroyed_xpoll = (struct xpoll *)nondet_voidp();
     xv_fd_ret = nondet_int();
+    xv_attrs_req_block = nondet_bool(); xv_mode_after_attrs = nondet_bool();
+    xv_set_calls = nondet_long(); xv_set_failed = nondet_bool(); xv_set_name = nondet_voidp(); xv_set_type = nondet_int();
+    xv_set_value = nondet_voidp(); xv_set_len = nondet_size_t(); xv_set_sock = nondet_sockp(); xv_set_rv = nondet_int();
+    xv_set_first_name = nondet_voidp();
+    xv_get_calls = nondet_long(); xv_get_name = nondet_voidp(); xv_get_value = nondet_voidp(); xv_get_cap = nondet_size_t();
+    xv_get_sock = nondet_sockp(); xv_get_rv = nondet_int(); xv_get_errno = nondet_int(); xv_get_type = nondet_int();
+    xv_created_sock = nondet_sockp(); xv_inited_sock = nondet_sockp(); xv_connected_sock = nondet_sockp(); xv_accepted_sock = nondet_sockp();
+    version_logged = nondet_bool();
 }
 #endif
